@@ -123,6 +123,7 @@ int main(int argc, char **argv)
     int conn, nconn = strcmp(resume, "none") ? 2 : 1;
     int pad = atoi(arg(argc, argv, "pad", "0")), early = atoi(arg(argc, argv, "early", "0")), suite2 = (int) strtol(arg(argc, argv, "suite2", "0"), NULL, 0);
     const char *oname2 = arg(argc, argv, "oname2", NULL);
+    int maxfrag = atoi(arg(argc, argv, "maxfrag", "0"));
     int earlyok = -1, oearly = -1;
     char cert[256], pkey[256], ca[256];
     sslKeys_t *keys = NULL;
@@ -166,6 +167,8 @@ int main(int argc, char **argv)
     }
     if (t13) SSL_CTX_set_ciphersuites(ctx, oname); else SSL_CTX_set_cipher_list(ctx, oname);
     if (pad > 0) SSL_CTX_set_block_padding(ctx, (size_t) pad);
+    /* maxfrag=512|1024|2048|4096: RFC 6066 max_fragment_length, asked for by whichever side is the client */
+    if (maxfrag > 0 && !mxclient) SSL_CTX_set_tlsext_max_fragment_length(ctx, maxfrag == 512 ? TLSEXT_max_fragment_length_512 : maxfrag == 1024 ? TLSEXT_max_fragment_length_1024 : maxfrag == 2048 ? TLSEXT_max_fragment_length_2048 : TLSEXT_max_fragment_length_4096);
     if (group) SSL_CTX_set1_groups_list(ctx, group);
     if (sigalgs) SSL_CTX_set1_sigalgs_list(ctx, sigalgs);
     SSL_CTX_load_verify_locations(ctx, ca, NULL);
@@ -193,6 +196,7 @@ int main(int argc, char **argv)
         if (mxclient) matrixSslSessOptsSetClientTlsVersions(&opts, &pv, 1); else matrixSslSessOptsSetServerTlsVersions(&opts, &pv, 1);
         if (!strcmp(resume, "ticket")) opts.ticketResumption = 1;
         if (pad > 0) opts.tls13BlockSize = pad;
+        if (maxfrag > 0 && mxclient) opts.maxFragLen = maxfrag;
         if (early > 0 && !mxclient) opts.tls13SessionMaxEarlyData = 16384;
         if (gid) { uint16_t g = (uint16_t) gid; matrixSslSessOptsSetKeyExGroups(&opts, &g, 1, 1); }
         else if (arg(argc, argv, "gids", NULL))
@@ -280,10 +284,10 @@ int main(int argc, char **argv)
     }
     printf("{\"tag\":\"%s\",\"role\":\"%s\",\"ver\":\"%s\",\"suite\":%d,\"oname\":\"%s\",\"key\":\"%s\",\"cauth\":%d,\"resume\":\"%s\",\"group\":\"%s\",\"nconn\":%d,\"hrr\":%d,"
            "\"done\":[%d,%d],\"odone\":[%d,%d],\"mres\":[%d,%d],\"ores\":[%d,%d],\"dataok\":[%d,%d],\"odataok\":[%d,%d],\"mxsuite\":[%d,%d],\"mver\":[\"%s\",\"%s\"],"
-           "\"over\":[\"%s\",\"%s\"],\"ocipher\":[\"%s\",\"%s\"],\"ogroup\":[\"%s\",\"%s\"],\"mgrp\":[%d,%d],\"mxerr\":[%d,%d],\"oerr\":[%d,%d],\"pad\":%d,\"early\":%d,\"earlyok\":%d,\"oearly\":%d,\"suite2\":%d,\"oname2\":\"%s\"}\n",
+           "\"over\":[\"%s\",\"%s\"],\"ocipher\":[\"%s\",\"%s\"],\"ogroup\":[\"%s\",\"%s\"],\"mgrp\":[%d,%d],\"mxerr\":[%d,%d],\"oerr\":[%d,%d],\"pad\":%d,\"early\":%d,\"earlyok\":%d,\"oearly\":%d,\"suite2\":%d,\"oname2\":\"%s\",\"maxfrag\":%d}\n",
            tag, role, ver, suite, oname, key, cauth, resume, group ? group : "-", nconn, atoi(arg(argc, argv, "hrr", "0")), done[0], done[1], odone[0], odone[1], mres[0], mres[1], ores[0], ores[1],
            dataok[0], dataok[1], odataok[0], odataok[1], mxsuite[0], mxsuite[1], mver[0], mver[1], over[0], over[1], ocipher[0], ocipher[1], ogroup[0], ogroup[1], mgrp[0], mgrp[1],
-           mxerr[0], mxerr[1], oerr[0], oerr[1], pad, early, earlyok, oearly, suite2, oname2 ? oname2 : "-");
+           mxerr[0], mxerr[1], oerr[0], oerr[1], pad, early, earlyok, oearly, suite2, oname2 ? oname2 : "-", maxfrag);
     if (osess) SSL_SESSION_free(osess);
     SSL_CTX_free(ctx);
     if (sid) matrixSslDeleteSessionId(sid);
